@@ -28,12 +28,13 @@ m = dict(version=1, setup_cmd="./setup.sh",
          hooks=dict(guard="DISTANCE3D_VERIF", enable="none needed: contracts are side-car files under /verif/contracts, the checks read "
                     "/repo's source text and import /repo natively; no guarded source commits exist",
                     baseline_off_cmd="cd /repo && /venv/bin/python -m pytest -ra -q -p no:cacheprovider --timeout=900 --continue-on-collection-errors",
-                    source_commits=commits, add_only=True),
+                    source_commits=[], add_only=True),
          engines=[dict(name="d3vc", path="d3vc/", serves_properties=sorted(levels.LEVEL),
                        kind_free_text="own verification-condition generator for Python/numpy: proxy symbolic execution of the real source, "
                        "side-car contracts, polynomial normal forms modulo SO(3), portfolio z3 5.1 / z3 4.8 / cvc5, native replay")],
          checks=checks, not_applicable=na,
-         notes="See DESIGN.md. known_findings.json lists genuine defects (finding / fixed).")
+         notes="See DESIGN.md. No hook / instrumentation commits exist in /repo (contracts are side-car). Genuine defects repaired by unguarded "
+               "'fix:' commits in /repo: " + ", ".join(c[:10] for c in commits) + ". known_findings.json lists every genuine defect (finding / fixed).")
 json.dump(m, open(os.path.join(V, "MANIFEST.json"), "w"), indent=1)
 import jsonschema
 jsonschema.validate(m, json.load(open("/root/.vp/MANIFEST.schema.json")))
